@@ -315,9 +315,7 @@ func (e *refEnv) subscripts(n *ast.ArrayIndexNode, in any, c rctx) ([]any, rctx,
 	if !ok {
 		if e.strict {
 			if c.ignore {
-				// a subscript on a non-array below .** in strict mode: the port
-				// raises where PostgreSQL skips, and no property says which
-				e.open = true
+				// below .** a subscript skips the items that are not arrays
 				return nil, c, eNone
 			}
 			return nil, c, eSupp
